@@ -29,6 +29,10 @@ def generate(tier, seed):
                     steps += [o] + obs
                 cases.append(case("eng", sp, adapter_M(lines), "w", steps))
                 dist["exhaustive"] += 1
+                # the same history through a CachedEnforcer (it keeps its own event table and callbacks)
+                if k == 1 or len(cases) % 5 == 0:
+                    cases.append(case("engc", sp, adapter_M(lines), "w", steps))
+                    dist["cached_enforcer"] = dist.get("cached_enforcer", 0) + 1
     for _ in range(60 if tier == "quick" else 1500):
         n = rnd.choice([5, 15, 40])
         steps = list(obs)
@@ -37,7 +41,7 @@ def generate(tier, seed):
         ad = adapter_M(initial_lines(rnd, False, True))
         if rnd.random() < 0.4:
             ad = adapter_X(ad, "p" + "".join(rnd.choice("pppprf") for _ in range(2 * n)))
-        cases.append(case("eng", sp, ad, "w", steps))
+        cases.append(case(rnd.choice(["eng", "eng", "engc"]), sp, ad, "w", steps))
         dist["random"] += 1
     # two policy types per section: the event must name the policy type, not the section
     sp = multi_spec()
